@@ -69,6 +69,69 @@ CHECKS = {
         "design_ref": "DESIGN.md section 4, C01",
         "note": "trusted: cvc5 1.4.0 / z3 5.1.0, the partial evaluator (validated on every run against the real __post_init__ with blake2b's input recorded), H injective (no blake2b collisions), UTF-8 injective, hexdigest format of child ids",
     },
+    "C02": {
+        "engine": "symx (engine P)",
+        "technique": "bounded symbolic exploration (symx selectors) of tree pairs whose origins differ at one chosen position, against the structural + position-wise origin oracle",
+        "text": "For every base tree within the bound, every position, every pair of origins from a pool of 8 (incl. equal-but-distinct copies), same-position and moved variants: ==, its mirror, != agree with the oracle, hash is constant; all small pairs; 22^3 triples for transitivity; foreign comparands. Selectors only: the all-paths verdict equals bounded enumeration (DESIGN.md section 6).",
+        "design_ref": "DESIGN.md section 4, C02",
+        "note": "trusted: symx, structural oracle of C01, origin key equality; origin integers cannot stay symbolic (ids render origin.fqn at construction) - origin equality over all integers is C15",
+    },
+    "C04": {
+        "engine": "symx (engine P)",
+        "technique": "bounded exploration (symx selectors) of tree x value variant x outside twins x format x source optimisation x liveness-at-read-time, against a snapshot taken before serialization",
+        "text": "Every combination within the bound round-trips position by position (identity for live originals, otherwise class/id/content_id/all property values/origin equal, registered, singletons restored, shared nodes shared again), for dict, JSON, MessagePack and YAML, with and without index-based sources, with all / none / each single subtree of the originals alive. Selectors only; values are pool values because no engine keeps data symbolic through the C serializers.",
+        "design_ref": "DESIGN.md section 4, C04",
+        "note": "trusted: symx, snapshot oracle; registry clearing stands in for a fresh process",
+    },
+    "C06": {
+        "engine": "symx (engine P)",
+        "technique": "bounded symbolic exploration of Tree queries over all zoo shapes (selectors) with lazy symbolic exact_type / check_ancestor, against the recipe-derived parent map",
+        "text": "For ALL tree shapes up to 6 (quick) / 7 (thorough) nodes, with distinct and with content-identical leaves, every node, ordered pair and member twin as query argument: every Tree query agrees with the downward structure; KeyError / ValueError as documented; get_xpath leads structurally back to the node and is unique.",
+        "design_ref": "DESIGN.md section 4, C06",
+        "note": "trusted: symx, recipe oracle; precondition of the statement (all registered, no repeated objects) is built in",
+    },
+    "C09": {
+        "engine": "symx (engine P)",
+        "technique": "bounded symbolic execution of the real accept / ASTTransformVisitor with lazily chosen rule actions (a symbolic choice consulted when the real code dispatches to a visit method) and lazy symbolic `strict`, against a reference bottom-up rewrite with identity map",
+        "text": "For every tree within the bound, every method placement (own classes, base class only, leaf class only, inner only, none), strict and non-strict, and EVERY assignment of actions (descend/same/rewrite/replace/remove/raise) to the nodes the traversal reaches: dispatch, result shape, identity of untouched subtrees, newness of changed ancestors and non-modification of the input (also on raise) agree with the reference.",
+        "design_ref": "DESIGN.md section 4, C09",
+        "note": "trusted: symx, z3, reference rewrite (appendix A.2)",
+    },
+    "C10": {
+        "engine": "symx (engine P)",
+        "technique": "bounded exploration (symx selectors) of operation histories with a frame monitor: snapshot of every existing node before each of 34 public operations, compared afterwards; setattr/delattr on every class x field",
+        "text": "Every history of K=2 (quick) / 3 (thorough) operations from 34 public operations on 5 trees with every node as target leaves every pre-existing node (including nodes created by earlier steps) bit-identical in all dataclass fields, id, content_id and hash; assignment and deletion raise for every field of every model class. Selectors only.",
+        "design_ref": "DESIGN.md section 4, C10",
+        "note": "trusted: symx, snapshot via object.__getattribute__; registry membership excluded as the statement allows",
+    },
+    "C14": {
+        "engine": "symx (engine P)",
+        "technique": "bounded exploration (symx selectors) of duplicate / ASTNode.replace / dataclasses.replace over trees, registration states, twins and field changes, with the expected id obtained from a fresh construction in a restored registry",
+        "text": "duplicate() on ALL zoo shapes up to 5 (quick) / 7 (thorough) nodes plus shared-subtree and rich-property trees x twins x three registration states; replace on 8 bases x twin (both creation orders) x state x 3-9 single/two-field changes x both operations: every clause of the statement holds. Selectors only.",
+        "design_ref": "DESIGN.md section 4, C14",
+        "note": "trusted: symx, recipe oracle, experimental id oracle (appendix A.5)",
+    },
+    "C16": {
+        "engine": "symx (engine P)",
+        "technique": "bounded symbolic execution of the real (de)serialization front-ends with every option a lazy symbolic boolean consulted per nested object and a lazy symbolic fault bit per nested hooked object (fault schedule), selectors for call kind / dialect / input corruption",
+        "text": "For every call kind (4 serializers, 4 deserializers), dialect, corruption and EVERY value of the option bits and fault bits that the real code consults: nested mappings obey the options in force, and after the call - returned or raised - the option slots are clear and a default as_dict() equals the baseline. quick: one option-carrying call + default call; thorough: two.",
+        "design_ref": "DESIGN.md section 4, C16",
+        "note": "trusted: symx, z3, output walker; YAML key order not checked (the dumper sorts itself)",
+    },
+    "C18": {
+        "engine": "symx (engine P)",
+        "technique": "bounded exploration (symx selectors: forest, operation, receiver, argument per step) of legacy operation histories with the structural invariant checked on every attached node after every successful operation, content ids against an independently built equal tree, per-path watchdog",
+        "text": "Every history of K=2 (quick) / 3 (thorough) operations out of 24 legacy operations over 3 initial forests (tuple, list, optional, required child fields) keeps the invariant of the statement, except the recorded known finding. Selectors only: equals bounded enumeration of histories.",
+        "design_ref": "DESIGN.md section 4, C18",
+        "note": "trusted: symx, invariant checker, rebuild oracle (appendix A.8); cycle-creating arguments cut by assume",
+    },
+    "C19": {
+        "engine": "symx (engine P)",
+        "technique": "same exploration as C18; whenever an operation raises a documented error a snapshot of all pre-existing nodes and of the registry taken before the call is compared with the state after",
+        "text": "Every rejected operation instance reachable within K=2 (quick) / 3 (thorough) steps is checked for the frame condition; the rollback gaps found are recorded as known findings per (operation family, error class); any other rejected operation changing anything is a violation.",
+        "design_ref": "DESIGN.md section 4, C19",
+        "note": "trusted: symx, snapshot oracle; undocumented exceptions are counted, not judged",
+    },
 }
 NOT_APPLICABLE = {
     "C11": "input is a class definition consumed by typing/abc introspection (get_origin/get_args/get_type_hints/issubclass): no engine can keep an annotation symbolic, every path would be one concrete class definition, i.e. enumeration of concrete runs rather than a solver verdict (DESIGN.md section 5)",
